@@ -644,6 +644,10 @@ class ExecCtx:
                 v = self.eval(a.value)
                 items = I.lib.concrete_iter(self, v)
                 if items is None:
+                    if isinstance(v, SymSeq):
+                        from .models_py import StarArg
+                        args.append(StarArg(v))
+                        continue
                     raise OutOfSubset("star-args of symbolic length")
                 args.extend(items)
             else:
